@@ -1,7 +1,9 @@
 package main
 
 import (
+	"bytes"
 	"fmt"
+	"verif/internal/refcodec"
 
 	"github.com/libsv/go-bt/v2/bscript/interpreter"
 	"github.com/libsv/go-bt/v2/bscript/interpreter/scriptflag"
@@ -380,6 +382,44 @@ func init() {
 							in.Unlock, in.Lock = pv.build(operand), x.ops(operand)
 						}
 						judge(c, &in)
+					}
+				}
+			}
+		}
+		c.Phase("push-form-grid") // every push form x data sizes on the size-class boundaries (incl. 32767/32768 and 65535/65536) x MINIMALDATA / era, executed and skipped
+		{
+			n := uint64(0)
+			for _, size := range []int{0, 1, 2, 75, 76, 255, 256, 520, 521, 32767, 32768, 40000, 65535, 65536} {
+				for _, form := range []byte{0, 0x4c, 0x4d, 0x4e} {
+					data := bytes.Repeat([]byte{0x5a}, size)
+					var push []byte
+					if form == 0 {
+						push = gen.Push(data)
+					} else {
+						e, ok := refcodec.PushWith(form, data)
+						if !ok {
+							continue
+						}
+						push = e
+					}
+					for fi, fl := range []uint32{0, uint32(scriptflag.VerifyMinimalData), uint32(scriptflag.UTXOAfterGenesis), uint32(scriptflag.UTXOAfterGenesis | scriptflag.VerifyMinimalData)} {
+						for pos := 0; pos < 3; pos++ {
+							n++
+							if !c.Case(n) {
+								continue
+							}
+							in := progInput{Flags: fl, Ctx: defaultCtx(), Src: "push-form-grid"}
+							switch pos {
+							case 0: // in the locking script, executed
+								in.Lock = append(append([]byte{}, push...), 0x75, 0x51)
+							case 1: // in the unlocking script
+								in.Unlock, in.Lock = append([]byte{}, push...), []byte{0x75, 0x51}
+							default: // in a branch that is not executed
+								in.Lock = append(append(append([]byte{0x00, 0x63}, push...), 0x68), 0x51)
+							}
+							_ = fi
+							judge(c, &in)
+						}
 					}
 				}
 			}
